@@ -11,6 +11,8 @@ SHAPES = [
     (b"v0", {}),
     (b"value-one-" * 40, {"metadata": {"note": "x" * 300, "n": [1, 2, 3]}, "time": "1700000000000"}),
     (b"", {"raw_metadata": "00ff10", "time": "5"}),
+    # a timestamp far in the future: later removals and re-writes (stamped "now" or older) must still win
+    (b"from the future", {"time": str(2 ** 64 + 12345), "metadata": [1, 2, 3]}),
 ]
 
 
@@ -67,7 +69,7 @@ def run(ctx):
                 "records placed in other keys' buckets, mixed sync/async modes on one directory. distinct = "
                 "distinct sequences of (op, key, shape) (bounded) / distinct model states reached (random)")
     ctx.assumptions = ["single process at a time (concurrency is C07)", "healthy filesystem"]
-    alphabet = [("w", k, s) for k in ("a", "b") for s in range(3)] + [("r", k, None) for k in ("a", "b")]
+    alphabet = [("w", k, s) for k in ("a", "b") for s in range(len(SHAPES))] + [("r", k, None) for k in ("a", "b")]
     hid = 0
     states = set()
     # ---------------- bounded exhaustive
@@ -112,14 +114,14 @@ def run(ctx):
             if r < 0.55:
                 uniq += 1
                 shared = rng.random() < 0.3
-                steps.append(write_step(ctx, m, cache, k, rng.randrange(3), None if shared else str(uniq).encode()))
+                steps.append(write_step(ctx, m, cache, k, rng.randrange(len(SHAPES)), None if shared else str(uniq).encode()))
                 maxrec[k] = maxrec.get(k, 0) + 1
             elif r < 0.8:
                 steps.append({"mode": m, "req": {"op": "remove", "cache": cache, "key": k}})
                 maxrec[k] = maxrec.get(k, 0) + 1
             elif r < 0.9:
-                # foreign record: valid record for another key in k's bucket
-                steps.append({"mode": m, "foreign": (k, f"foreign-{h}-{j}"), "req": {"op": "ping"}})
+                # foreign record: valid record (an insert or a removal) for another key in k's bucket
+                steps.append({"mode": m, "foreign": (k, f"foreign-{h}-{j % 3}", rng.random() < 0.5), "req": {"op": "ping"}})
             pm = rng.choice(modes) if mixed else pure
             for pk in rng.sample(keys, min(3, len(keys))):
                 steps.extend(probes(pm, cache, [pk], with_read=rng.random() < 0.5))
@@ -142,7 +144,7 @@ def run(ctx):
         for j in range(nrec):
             m = modes[(h + j) % len(modes)] if h % 2 else modes[h % len(modes)]
             if rng.random() < 0.85:
-                steps.append(write_step(ctx, m, cache, key, rng.randrange(3), str(j).encode()))
+                steps.append(write_step(ctx, m, cache, key, rng.randrange(len(SHAPES)), str(j).encode()))
             else:
                 steps.append({"mode": m, "req": {"op": "remove", "cache": cache, "key": key}})
             if j % 9 == 0 or j >= nrec - 3:
@@ -188,8 +190,8 @@ def run_with_foreign(ctx, steps, cache, hid):
         if s.get("foreign"):
             if not flush():
                 return model
-            bucket_key, fkey = s["foreign"]
-            js = ref.entry_json(fkey, ref.sri("sha256", b"foreign"), 1, 7)
+            bucket_key, fkey, removal = s["foreign"]
+            js = ref.entry_json(fkey, None if removal else ref.sri("sha256", b"foreign"), 1 if not removal else 2 ** 70, 7 if not removal else 0)
             ref.append_record(cache, fkey, js, bucket_key=bucket_key)
             allsteps.append(s)
             ctx.count("foreign_records")
